@@ -29,6 +29,7 @@ mod e01;
 mod e03;
 mod e02;
 mod e04;
+mod e05;
 mod c05;
 
 #[global_allocator]
@@ -70,6 +71,7 @@ fn props() -> Vec<Prop> {
         Prop { id: "E03", run: e03::run, gen: e03::gen },
         Prop { id: "E02", run: e02::run, gen: e02::gen },
         Prop { id: "E04", run: e04::run, gen: e04::gen },
+        Prop { id: "E05", run: e05::run, gen: e05::gen },
     ]
 }
 
